@@ -357,45 +357,8 @@ def run(ctx):
         else:
             ctx.violate("R4", f"FCHK writer packs a symmetric matrix with {cs.external}: the reader unpacks the row-major LOWER triangle, so off-diagonal elements come back on other positions", f, cs.node)
     ctx.floor("R4", len(packs), 3, "triangular packing sites in the FCHK writer")
-    # the unpacking routine: called on fchk fields from the loader
-    fchk_lo = prog.func("iodata.formats.fchk.load_one")
-    cand = {}
-    for f in prog.callees_closure([fchk_lo]):
-        for cs in f.calls:
-            for g in cs.callees:
-                if g.module.name == "iodata.formats.fchk" and len(g.posparams) == 1 and cs.cls is None:
-                    loops = [n for n in g.own_nodes() if isinstance(n, ast.For)]
-                    if len(loops) == 1 and any(isinstance(n, ast.Assign) and isinstance(n.targets[0], ast.Subscript) for n in ast.walk(loops[0])):
-                        cand[g.qualname] = g
-    if len(cand) != 1:
-        ctx.violate("R4", f"cannot identify the triangular unpacking routine of the FCHK reader (candidates {sorted(cand)})", fchk_lo, fchk_lo.node, construct="triangle unpacking routine")
-    else:
-        tri = next(iter(cand.values()))
-        tp = tri.posparams[0]
-        lp = [n for n in tri.own_nodes() if isinstance(n, ast.For)][0]
-        iv = lp.target.id if isinstance(lp.target, ast.Name) else None
-        body = {src_of(s) for s in lp.body}
-        # required facts, compared on normalised statement text with the loop variable as `I`
-        def norm(s):
-            import re as _re
-            return _re.sub(rf"\b{iv}\b", "I", s) if iv else s
-        nb = {norm(b) for b in body}
-        res = None
-        for s in lp.body:
-            if isinstance(s, ast.Assign) and isinstance(s.targets[0], ast.Subscript) and isinstance(s.targets[0].value, ast.Name):
-                res = s.targets[0].value.id
-        need = {
-            "run of length I+1": any(n.replace(" ", "") in ("end=begin+I+1", "end=begin+(I+1)", "end=I+1+begin") for n in nb),
-            "row fill [I, :I+1]": any(n.replace(" ", "").startswith(f"{res}[I,:I+1]={tp}[begin:end]") for n in nb),
-            "column fill [:I+1, I]": any(n.replace(" ", "").startswith(f"{res}[:I+1,I]={tp}[begin:end]") for n in nb),
-            "advance begin = end": any(n.replace(" ", "") == "begin=end" for n in nb),
-            "loop over range(nrow)": isinstance(lp.iter, ast.Call) and getattr(lp.iter.func, "id", "") == "range" and len(lp.iter.args) == 1,
-        }
-        bad = [k for k, v in need.items() if not v]
-        if bad:
-            ctx.violate("R4", f"triangular unpacking deviates from 'row i takes the next i+1 elements, mirrored': missing {bad}", tri, lp, construct=f"triangle unpack: {bad}")
-        else:
-            ctx.ok("R4", "triangular unpacking: row i <- next i+1 elements (row-major lower triangle), mirrored to column i", f"{tri.module.relpath}:{lp.lineno}")
+    # the unpacking routine, evaluated: element k of the row-major lower triangle lands on (i, j) and (j, i)
+    _check_triangle_unpacking(ctx)
     # block-wise lower-triangular matrices of the Gaussian log
     gl = prog.modules.get("iodata.formats.gaussianlog")
     nblock = 0
@@ -1536,3 +1499,36 @@ def check_gro_frame(ctx, rid):
             ctx.violate(rid, f"GRO frame: {bad}", f, f.node, construct=f"gro frame: {bad}"[:160])
             return
     ctx.ok(rid, f"gromacs: {len(titles)} model frames (time positive / negative / with exponent / absent): time, residue and atom columns, positions, velocities and box come from their own fields, in nm and ps", f"{f.module.relpath}:{f.lineno}")
+
+
+def _check_triangle_unpacking(ctx):
+    """The FCHK reader's triangular unpacking routine interpreted on the ten numbers of a 4 x 4 lower triangle (row by
+    row): number k = i (i + 1) / 2 + j must land on [i, j] and [j, i]; a 1 x 1 and an empty triangle are matrices too."""
+    from ..accessors import AccessorEval, Raised
+    from ..symarr import NotSymbolic
+
+    prog = ctx.prog
+    tri = prog.funcs.get("iodata.formats.fchk._triangle_to_dense")
+    if tri is None:
+        # found by role: the one-argument function of the module that load_one applies to a field
+        lo = prog.func("iodata.formats.fchk.load_one")
+        cands = {g.qualname: g for f in prog.callees_closure([lo]) for cs in f.calls for g in cs.callees if g.module is lo.module and len(g.posparams) == 1 and cs.cls is None and any(isinstance(n, ast.For) for n in g.own_nodes())}
+        if len(cands) != 1:
+            raise AnalysisError(f"fchk: the triangular unpacking routine cannot be identified (candidates {sorted(cands)})")
+        tri = next(iter(cands.values()))
+    for n in (4, 1, 0):
+        flat = np.array([float(10 * (i + 1) + (j + 1)) for i in range(n) for j in range(i + 1)])
+        want = np.array([[float(10 * (max(i, j) + 1) + (min(i, j) + 1)) for j in range(n)] for i in range(n)]).reshape(n, n)
+        try:
+            got = AccessorEval(prog, None, limit=4000).run_free(tri, [flat], {})
+        except Raised as exc:
+            ctx.violate("R4", f"triangular unpacking raises {exc.args[0]} for the lower triangle of a {n} x {n} matrix", tri, tri.node, construct=f"triangle unpack raises n={n}")
+            return
+        except NotSymbolic as exc:
+            raise AnalysisError(f"{tri.qualname} is outside the evaluation whitelist: {exc}") from exc
+        got = np.asarray(got, dtype=float)
+        if got.shape != (n, n) or (n and np.abs(got - want).max() > 1e-12):
+            k = tuple(int(v) for v in np.argwhere(np.abs(got - want) > 1e-12)[0]) if got.shape == (n, n) and n else None
+            ctx.violate("R4", f"triangular unpacking of a {n} x {n} matrix: " + (f"element {k} is {got[k]:g}, the triangle lists {want[k]:g} there (row i takes the next i + 1 numbers, mirrored to column i)" if k else f"result has shape {got.shape}"), tri, tri.node, construct="triangle unpack: misplaced element")
+            return
+    ctx.ok("R4", "triangular unpacking: number i (i + 1) / 2 + j of the row-major lower triangle lands on [i, j] and [j, i] (4 x 4, 1 x 1 and empty evaluated)", f"{tri.module.relpath}:{tri.lineno}")
